@@ -105,7 +105,7 @@ def main():
         # 3. checks
         meta["checks"] = {}
         for c in checks:
-            env2 = dict(os.environ, VERIF_REPO=wt)
+            env2 = dict(os.environ, VERIF_REPO=wt, VERIF_EVIDENCE_DIR="/var/tmp/verif-scratch-evidence", VERIF_REPLAY_DIR="/var/tmp/verif-scratch-replays")
             cr = run([os.path.join(VERIF, "check"), c, "--tier", a.tier], cwd=VERIF, env=env2)
             lines = [l for l in cr.stdout.splitlines() if l.startswith(("VIOLATION", "  clause"))]
             meta["checks"][c] = {"tier": a.tier, "exit": cr.returncode, "lines": lines[:6]}
